@@ -75,7 +75,7 @@ STUBS = [
 ]
 ASSUMPTIONS = [
     "edge arrays are strictly increasing with at least two entries (class invariant; the constructor is proved to reject anything else for the enumerated sizes)",
-    "enumerated finite classes: axis in {0,1,2}; snap in {nearest,lower,upper}; exact-semantics runs at cell counts 1..3 (thorough: ..5) with every interval size 0..n+1 and anchor positions {-1,0,1,0.25}; constructor at the cell-count triples listed in coverage.task members with float64/float32 epsilon; reduce_symmetric at the listed (cell counts, symmetry) pairs",
+    "enumerated finite classes: axis in {0,1,2}; snap in {nearest,lower,upper}; exact-semantics runs at cell counts 1..3 (thorough: ..5) with every interval size 0..n+1 and anchor positions {-1,0,1,0.25}; constructor at the cell-count triples listed in coverage.explanation with float64/float32 epsilon; reduce_symmetric at the (cell counts, symmetry) pairs listed there",
     "method contracts for symbolic cell counts assume the constructor's postconditions (_cell_widths == diff(edges), _min_spacings > 0); those postconditions are proved by executing the real constructor for cell counts (nx,ny,nz) in the listed enumerated set only (values symbolic)",
     "CFL obligation for a grid flagged uniform is proved under exact uniformity (every per-axis minimum width equals the stored uniform spacing): the flag tolerates 1e-4 relative width variation and the stored spacing is rounded to 14 decimals, so for nearly-uniform grids dt can exceed cf*dt_CFL by that relative amount; this is treated as 'up to round-off' and not claimed",
     "coordinates outside the edge range: 'lower' returns -1 / 'upper' returns n+1 (no such edge); the contract states the result as a count, it does not require an in-range index",
@@ -85,6 +85,16 @@ MIN_OBLIGATIONS = {"quick": 1700, "thorough": 3500}
 LEVEL_TEXT = "Deductive proof, for all cell counts, edge values, coordinates, sizes and positions, that the real RectilinearGrid snapping / interval / extent / area / volume / time-step methods meet their contracts; constructor (uniform detection, widths, minima) and symmetric reduction proved for all edge values at enumerated small cell counts"
 LEVEL_NOTE = "real arithmetic; numpy argmin/searchsorted enter by contract for symbolic lengths; constructor and reduce_symmetric size-bounded (values unbounded); uniform-branch CFL under exact uniformity"
 AXIOMS = NP.AXIOMS
+EXPLANATION = (
+    "Six worker jobs bundle the member sessions (obligation names are '<member>:<clause>'). Members: per axis 0..2 -- "
+    "coord_to_index x {nearest,lower,upper}, length_to_cell_count x 3 snaps, bounds_for_center, bounds_for_anchor, "
+    "anchor/extent/centers, face_area with SYMBOLIC cell counts ('sym'); the same snapping/interval members with exact numpy "
+    "semantics at cell-count triples (1,2,3),(2,3,1),(3,1,2) rotated so the tested axis has 1,2,3 cells (thorough: also 4,2,5 / 5,4,2 / 2,5,4), "
+    "interval sizes 0..n+1, anchor positions -1,0,1,0.25; slice_extent/shape/min_spacing and cell_volume (sym); face_area+cell_volume on "
+    "concrete grids (2,3,1),(3,1,2),(1,2,3); cfl_time_step branches nonuniform/uniform/flag_without_spacing; constructor at (1,1,1),(2,1,3),"
+    "(1,3,2),(3,2,1),(2,2,2) [float64 eps; float32 too for the first two] (+4 shapes and float32 everywhere in thorough), unconstrained-edge constructor at (1,1,1),(2,1,2); "
+    "reduce_symmetric at 8 (cell counts, symmetry) pairs (+4 in thorough)."
+)
 
 GRID = "fdtdx.core.grid"
 PATCH_NAMES = ("jnp", "jax", "math", "isinstance", "float", "int")
